@@ -38,7 +38,7 @@ impl CharIter {
     pub fn collect<B: FromChars>(self) -> (r: B) ensures r.chars_of() == self.rest() { unimplemented!() }
 }
 pub trait FromChars { spec fn chars_of(&self) -> Seq<char>; }
-impl FromChars for String { uninterp spec fn chars_of(&self) -> Seq<char>; }
+impl FromChars for String { open spec fn chars_of(&self) -> Seq<char> { self@ } }
 
 /// abstract identity of a value (what `to_value()` / views preserve)
 #[verifier::external_body]
@@ -68,6 +68,14 @@ impl Value {
     pub uninterp spec fn str_chars(&self) -> Option<Seq<char>>;
     pub uninterp spec fn arr(&self) -> Option<Seq<VId>>;
     pub uninterp spec fn vid(&self) -> VId;
+}
+/// the identity of nil
+pub uninterp spec fn nil_vid() -> VId;
+impl Value {
+    /// the enum variant `Value::Nil` as an expression
+    #[allow(non_upper_case_globals)]
+    #[verifier::external_body]
+    pub exec const Nil: Value ensures Self::Nil.vid() == nil_vid() { Value { _p: 0 } }
 }
 pub trait IntoScalar: Sized {
     spec fn as_num(self) -> Option<Num>;
@@ -109,6 +117,10 @@ impl ValIter {
     { unimplemented!() }
 }
 
+#[verifier::external_body]
+pub struct DisplayCow { _p: u8 }
+/// the object behind a value identity has the key
+pub uninterp spec fn obj_has_key(o: VId, k: Seq<char>) -> bool;
 pub trait ValueView {
     spec fn vid_of(&self) -> VId;
     spec fn scalar_of(&self) -> Option<ScalarCow>;
@@ -122,19 +134,47 @@ pub trait ValueView {
     fn as_array(&self) -> (r: Option<&dyn ArrayView>)
         ensures self.array_of() is Some <==> r is Some,
                 r matches Some(a) ==> self.array_of() == Some(a.elems());
+    /// display helpers (used in error messages only; no contract)
+    #[verifier::external_body]
+    fn render(&self) -> DisplayCow { unimplemented!() }
+    #[verifier::external_body]
+    fn source(&self) -> DisplayCow { unimplemented!() }
+    #[verifier::external_body]
+    fn type_name(&self) -> &'static str { unimplemented!() }
     spec fn object_size_of(&self) -> Option<int>;
     fn as_object(&self) -> (r: Option<&dyn ObjectView>)
         ensures self.object_size_of() is Some <==> r is Some,
-                r matches Some(o) ==> self.object_size_of() == Some(o.entries());
+                r matches Some(o) ==> self.object_size_of() == Some(o.entries()),
+                r matches Some(o) ==> forall|k: Seq<char>| #[trigger] o.has_key(k) == obj_has_key(self.vid_of(), k);
 }
 pub trait ObjectView {
     spec fn entries(&self) -> int;
     fn size(&self) -> (r: i64) ensures r == self.entries();
+    spec fn has_key(&self, k: Seq<char>) -> bool;
+    fn contains_key(&self, index: &str) -> (r: bool) ensures r == self.has_key(index@);
 }
 pub trait ArrayView {
     spec fn elems(&self) -> Seq<VId>;
     fn size(&self) -> (r: i64) ensures r == self.elems().len();
     fn values(&self) -> (r: ValIter) ensures r.rest() == self.elems();
+}
+/// `ArrayView::first/last` (an extension trait here: Verus forbids the ValueView <-> ArrayView cycle in trait contracts);
+/// proved for the trait's default bodies (first = get(0), last = get(-1)) in unit `index`
+pub trait ArrayEnds {
+    spec fn elems_of(&self) -> Seq<VId>;
+    fn first(&self) -> (r: Option<&dyn ValueView>)
+        ensures self.elems_of().len() == 0 ==> r is None,
+                self.elems_of().len() > 0 ==> (r matches Some(v) && v.vid_of() == self.elems_of()[0]);
+    fn last(&self) -> (r: Option<&dyn ValueView>)
+        ensures self.elems_of().len() == 0 ==> r is None,
+                self.elems_of().len() > 0 ==> (r matches Some(v) && v.vid_of() == self.elems_of()[self.elems_of().len() - 1]);
+}
+impl ArrayEnds for &dyn ArrayView {
+    open spec fn elems_of(&self) -> Seq<VId> { self.elems() }
+    #[verifier::external_body]
+    fn first(&self) -> (r: Option<&dyn ValueView>) { unimplemented!() }
+    #[verifier::external_body]
+    fn last(&self) -> (r: Option<&dyn ValueView>) { unimplemented!() }
 }
 /// `Value` itself is a view (identity preserved)
 impl ValueView for Value {
